@@ -74,6 +74,27 @@ def gen_case(rng):
     return k, specs
 
 
+def interleave(rng, schemas):
+    import d42
+    from d42.generation import Generator, Random, RegexGenerator
+    try:
+        rg = RegexGenerator(Random(), alphabet={"letters": "ab", "digits": "01", "word": "xy_"}, max_repeat=3)
+        rg.generate("a.\\d\\w[^a]b*")
+        g = Generator(Random(), rg)
+        d42.schema.str.regex(".\\d\\w").__accept__(g)
+        d42.schema.list(d42.schema.int).__accept__(g)
+    except Exception:
+        pass
+    for sch in schemas[:3]:
+        try:
+            v = d42.fake(sch)
+            d42.validate(sch, v)
+            repr(sch)
+            d42.substitute(sch, v)
+        except Exception:
+            pass
+
+
 def main(argv):
     seed = int(argv[0])
     cases = [int(x) for x in argv[1:]]
@@ -103,6 +124,9 @@ def main(argv):
             if p == 0:
                 Random().set_seed(k)
             else:
+                # unrelated public operations between the passes (the values must be a function of k and the
+                # schemas only): other generators with their own settings, validation, printing, substitution
+                interleave(rng, schemas)
                 # re-seed through a *second* Random instance: the state is global
                 Random().set_seed(k)
             vals = []
